@@ -295,7 +295,7 @@ def c17(run):
                 'value (numbers through the implementation\'s own formatter), constants must fold, expressions that read must not; '
                 'non-trivial = at least 2 operators; distinct by expression text')
     cases = []
-    names = [sv('xx'), sv('yy')]
+    names = [sv('xx'), sv('yy'), ('common', 'my', 'heart'), ('proper', ['Doctor', 'Feelgood'])]
     for i in range(n):
         r = rng.random()
         if r < 0.45:
@@ -310,7 +310,7 @@ def c17(run):
         cases.append((e, text))
     reqs = ['fold ' + hx(t) for _, t in cases]
     m, im = run.tie(reqs, functional=True, desc=lambda i: {'expression': cases[i][1]})
-    pre = 'put 3 into xx\nput "s" into yy\nrock zz with 7, 8, 9\nff takes pp\ngive back pp\n\n'
+    pre = 'put 3 into xx\nput "s" into yy\nput 4 into my heart\nput 6 into Doctor Feelgood\nrock zz with 7, 8, 9\nff takes pp\ngive back pp\n\n'
     rreqs = [run_req(pre + t) for _, t in cases]
     rm, rim = run.tie(rreqs, proj=proj_run, functional=True, desc=lambda i: {'program': pre + cases[i][1]})
     fmt_reqs, fmt_idx = [], []
@@ -454,8 +454,11 @@ def lint_program(rng):
             elif r < 0.68:
                 # poetic assignment with an expression: must start with a literal word
                 x = rng.choice([5.0, 42.0, 0.25])
-                e = rng.choice([num(x), st('lit'), bin_('plus', num(x), num(1)), TRUE])
-                c = ('num', x) if e == num(x) else ('str', 'lit') if e[0] == 'lit' and e[1][0] == 'str' else ('numexpr', e) if e[0] == 'bin' else None
+                e = rng.choice([num(x), st('lit'), bin_('plus', num(x), num(1)), TRUE,
+                                bin_('plus', num(x), v(names[0])), bin_('multiply', num(x), call(sv('ff'), num(1))),
+                                bin_('plus', st('lit'), v(names[1])), bin_('plus', num(x), ('popx', v(names[0])))])
+                c = ('num', x) if e == num(x) else ('str', 'lit') if e[0] == 'lit' and e[1][0] == 'str' else \
+                    'unknown' if reads(e) else ('numexpr', e) if e[0] == 'bin' else None
                 l = g.lhs()
                 out.append(('pnum', l, ('pexpr', e), ('boring', render_lhs(l), c)))
             elif r < 0.74:
